@@ -71,6 +71,12 @@ func NewFaultStore(inner litestream.ReplicaClient, faults []Fault) *FaultStore {
 	return fs
 }
 
+// AddStorm registers a kind-restricted storm at run time (op arm_storm).
+func (s *FaultStore) AddStorm(f Fault) {
+	ff := f
+	s.storms = append(s.storms, &ff)
+}
+
 func (s *FaultStore) begin(kind string) (int, *Fault) {
 	if s.Locked {
 		s.mu.Lock()
